@@ -177,6 +177,9 @@ def synth_samples(ctx, fmt):
         out.append(("synth:audio+lyrics3+id3v1", audio + lyrics3(40) + id3v1_block()))
         out.append(("synth:audio+apev2+lyrics3+id3v1", audio + ape_tag(200, rng) + lyrics3(17) + id3v1_block()))
         out.append(("synth:audio+id3v1", audio + id3v1_block()))
+        # audio whose last bytes spell "TAG" directly in front of the ID3v1 block (the block is still the last 128 bytes)
+        out.append(("synth:audio+'TAG'+id3v1", audio + b"TAG" + id3v1_block()))
+        out.append(("synth:audio+'xTAGTA'+id3v1", audio + b"xTAGTA" + id3v1_block()))
         # legacy short ID3v1 blocks (year field of 0-3 bytes): 124-127 bytes
         v1 = id3v1_block()
         for y in (range(4) if not ctx.quick else [rng.randrange(4), 3]):
